@@ -21,41 +21,57 @@ COQ_TARGETS = ["Props/C18.vo", "Model/C18Cmp.vo", "Model/Harness.vo"]
 THEOREM_FILES = ["Props/C18.v"]
 COQ_IMPORTS = ("From Coq Require Import List ZArith Bool QArith Qcanon.\n"
                "From PV Require Import Base.Index Np.Array Model.Sparse Model.Repr Model.Harness Model.C18Cmp.\n")
-SHARD = 6
+SHARD = 10
 TOL = Fraction(1, 10 ** 8)
 
 PAIRS = {
-    "repr": ("cp_als", "cp_apr_mu", "cp_apr_pdnr", "cp_apr_pqnr", "tucker_als"),
+    "repr": ("cp_als", "cp_apr_mu", "cp_apr_pdnr", "cp_apr_pqnr", "tucker_als", "hosvd", "gcp"),
     "print": ("cp_als", "cp_apr_mu", "cp_apr_pdnr", "cp_apr_pqnr", "hosvd", "tucker_als", "gcp"),
     "seed": ("cp_als", "cp_apr_mu", "cp_apr_pdnr", "cp_apr_pqnr", "tucker_als", "gcp"),
     "scale": ("cp_als", "hosvd", "tucker_als"),
     "relabel": ("cp_als", "hosvd", "tucker_als"),
 }
-# everything except what Props/C18.v proves: cp_als repr / print / scale / relabel (sweep + loop model) and hosvd / tucker_als
-# scale (rank rule + abstract projector model; the eigen-solvers behind it stay correspondence-only, see the manifest note)
-PROVED = {("cp_als", "repr"), ("cp_als", "print"), ("cp_als", "scale"), ("cp_als", "relabel"), ("hosvd", "scale"), ("tucker_als", "scale")}
+# everything except what Props/C18.v proves: cp_als repr / print / scale / relabel (sweep + loop model); hosvd / tucker_als scale
+# (rank rule + abstract projector model); wave 3: print for hosvd / tucker_als / cp_apr_mu (transliterated drivers, Proofs/C18Print.v),
+# repr for tucker_als (Gram matrix handed to the eigen solver identical for dense / sparse holders + abstract loop), relabel for
+# hosvd / tucker_als (abstract projector model under an equivariant oracle). The eigen-solvers and the Gram-permutation identity
+# behind the abstract Tucker theorems stay correspondence-only (manifest note).
+PROVED = {("cp_als", "repr"), ("cp_als", "print"), ("cp_als", "scale"), ("cp_als", "relabel"), ("hosvd", "scale"), ("tucker_als", "scale"),
+          ("hosvd", "print"), ("tucker_als", "print"), ("cp_apr_mu", "print"), ("tucker_als", "repr"),
+          ("hosvd", "relabel"), ("tucker_als", "relabel")}
 CORRESPONDENCE_ONLY = [f"{p}.{a}" for p, algs in PAIRS.items() for a in algs if (a, p) not in PROVED]
 
 RULE = ("metamorphic pairs of real runs, maxiters <= 5, <= 36 cells, ranks 1-2: repr = dense vs sparse holder of the same integer "
         "data (stored order sorted|reversed|random) for cp_als, cp_apr mu/pdnr/pqnr, tucker_als (hosvd and gcp_opt+LBFGSB reject "
-        "sparse data: not applicable); print = printitn/verbosity 0 vs {1,2,5} for all seven, plus ALL PAIRS of printing intervals from "
+        "sparse data), plus MEMORY LAYOUT pairs for all seven (data / subs / vals / start matrices handed over C-ordered, F-ordered or "
+        "as non-contiguous strided views; gcp start also as a plain list); print = printitn/verbosity 0 vs {1,2,5} for all seven, plus "
+        "ALL PAIRS of printing intervals from "
         "{0,1,2,5} on runs of 4-6 outer iterations whose cp_apr starts have structural zeros in the first factor (mu: the inadmissible-"
         "zero repair fires in mode 0 right after a printed / a silent iteration), likewise pdnr / pqnr / cp_als / tucker_als and hosvd "
-        "verbosity pairs (1,3,6); seed = same np.random.seed twice "
-        "(all with a random start; hosvd has none); scale = X vs cX, c in {2, 8, 1/4} for cp_als, hosvd, tucker_als only (cp_apr and "
-        "gcp losses are not scale-equivariant: skipped); relabel = X vs X.permute(p) with guess/ranks permuted and "
+        "verbosity pairs (1,3,6), plus odd intervals (0,3),(3,7),(1,100) on runs with maxiters 0/1/3/5 and hosvd verbosity on its "
+        "thresholds (0,2),(2,5),(0,10), also with the string start 'nvecs'; seed = same np.random.seed twice "
+        "(all with a random start; hosvd has none), plus STRING vs OBJECT start: the start run 1 drew ('random', seeded) or computed "
+        "('nvecs') and returned is handed to run 2 as a ktensor / list (tucker_als: unused first-mode slot filled arbitrarily); "
+        "scale = X vs cX, c in {2, 8, 1/4} and FAR scales c in {2^-24, 2^-17, 2^24, 2^-20, 2^-30} for cp_als, hosvd, tucker_als only "
+        "(cp_apr and gcp losses are not scale-equivariant: skipped), the far ones half on dyadic data with a graded multilinear "
+        "spectrum 1, 2^-g, 2^-2g (g 4..7) and, for hosvd, automatic ranks with a tight tolerance (1e-3..1e-6): chosen ranks (core "
+        "shape) compared explicitly, model compared at 1e-8 of the larger-magnitude side; relabel = X vs X.permute(p) with guess/ranks "
+        "permuted and "
         "dimorder' = [p.index(m) for m in dimorder] for cp_als, hosvd, tucker_als only (cp_apr and gcp have no mode-order "
-        "parameter and sweep modes 0..N-1, so a relabelled run is a different algorithm: skipped). Data: integer "
+        "parameter and sweep modes 0..N-1, so a relabelled run is a different algorithm: skipped); option corners for repr / relabel / "
+        "scale pairs: maxiters 1/0/2/5 with printing switched on identically on both sides (3, 7, 100). Data: integer "
         "low-rank-plus-noise (counts for cp_apr), with zero entries, and for cp_apr an optional all-zero slice; every mode-n "
         "unfolding has exact rank >= the requested rank (checked with Fractions in the generator), Tucker ranks satisfy "
         "r_n <= prod of the others, start columns are not nearly parallel (exact Gram-determinant test) - so the sub-problems are "
         "well posed and rounding is not amplified. cp_apr PQNR cases where pyttb raises its own L-BFGS assertion identically under "
-        "both presentations are skipped. non-trivial = data not all-equal and, for relabel, a non-identity permutation; "
+        "both presentations are skipped; 'nvecs' starts are not generated on sparse data (open findings A-38 / C09-NVECS-SPARSE: "
+        "sptensor.nvecs returns complex vectors). non-trivial = data not all-equal and, for relabel, a non-identity permutation; "
         "distinct = distinct (op, both run descriptions)")
 EXPLANATION = ("Each case is two real pyttb runs differing only in presentation; both observed models (raw weights/factors/core as "
                "exact rationals) are expanded by den_k / den_t in Coq over all subscripts and compared entrywise with "
                "|trans(pick p i) - c*base(i)| <= 1e-8*max(1,max|c*base|); fit/objective with |a-b| <= 1e-8*max(1,|b|); iteration "
-               "counts equal; for the seed pair raw parameters, returned start and fit must be identical (tolerance 0), except "
+               "counts and (Tucker) core shapes equal; for a scale factor below 1 the two sides swap roles (factor 1/c) so that the floor 1 of "
+               "the tolerance never hides a tiny model; for the seed pair raw parameters, returned start and fit must be identical (tolerance 0), except "
                "tucker_als whose eigsh/ARPACK start vector is not driven by numpy's seed: returned start identical, model and fit at "
                "tolerance. cp_als / tucker_als fits are compared through q = (1-fit)^2 (the quantity under the code's square root; "
                "near an exact fit the root turns 1e-16 into 1e-8). cp_als final fit under printing is recomputed from innerprod "
@@ -124,6 +140,35 @@ def gen_data(rng, shape, signed, R=2, zero_prob=0.2, zero_slice=False, need=None
     return data
 
 
+def gen_graded(rng, shape, g, terms=3):
+    """F-order list of DYADIC floats with a graded multilinear spectrum: sum_r 2^(-g r) a_r o b_r o ... with integer vectors in
+    -2..3 (every vector nonzero, the leading ones of each mode pairwise non-parallel) - exactly representable, so X * 2^k is exact;
+    relative multilinear singular values about 1, 2^-g, 2^-2g: with a tight tolerance the automatic HOSVD rank rule keeps the
+    small components at EVERY magnitude of the data"""
+    for _ in range(200):
+        vecs = [[[rng.randint(-2, 3) for _ in range(d)] for d in shape] for _ in range(terms)]
+        if any(not any(v) for t in vecs for v in t):
+            continue
+        ok = True
+        for n, d in enumerate(shape):
+            if d >= 2 and terms >= 2:
+                a, b = vecs[0][n], vecs[1][n]
+                if all(a[i] * b[j] == a[j] * b[i] for i in range(d) for j in range(d)):
+                    ok = False
+        if ok:
+            break
+    out = []
+    for i in tgen.all_subs(shape):
+        v = 0.0
+        for r in range(terms):
+            t = 1
+            for n, x in enumerate(i):
+                t *= vecs[r][n][x]
+            v += t * 2.0 ** (-g * r)
+        out.append(v)
+    return out
+
+
 def _wellcond(F, R):
     """exact test on integer numerators: columns not nearly parallel (Gram determinant >= 0.2 * product of diagonal)"""
     if R == 1:
@@ -179,17 +224,23 @@ def tucker_ranks(rng, shape):
     return [1] * len(shape)
 
 
-def base_run(rng, alg, shape=None, seeded=False, zero_slice=False, zero_init=False):
-    """a complete dense run description with an explicit start (or a seed when `seeded`)"""
+def base_run(rng, alg, shape=None, seeded=False, zero_slice=False, zero_init=False, graded=None, rank=None):
+    """a complete dense run description with an explicit start (or a seed when `seeded`);
+    graded = g: dyadic data with multilinear singular values 1, 2^-g, 2^-2g and (hosvd) a tight tolerance with automatic ranks"""
     shape = shape or pick_shape(rng, alg)
     N = len(shape)
     signed = alg in ("cp_als", "hosvd", "tucker_als") or (alg == "gcp" and rng.random() < 0.5)
     rd = {"alg": alg, "shape": list(shape), "sparse": False, "printitn": 0, "seed": None, "init": None}
     R = rng.choice([1, 2, 2])
+    if rank is not None:
+        R = rank
     tr = tucker_ranks(rng, shape)
     need = tr if alg == "tucker_als" else [2] * N if alg == "hosvd" else [R] * N
     rd["data"] = gen_data(rng, shape, signed, R=rng.choice([1, 2, 2]), zero_prob=rng.choice([0.0, 0.2, 0.4]), zero_slice=zero_slice,
                           need=None if zero_slice else need)
+    if graded is not None:
+        rd["data"] = gen_graded(rng, shape, graded)
+        rd["graded"] = graded
     dimorder = rng.choice([None, None] + U.perms(N))
     if alg == "cp_als":
         rd["rank"] = R
@@ -211,7 +262,9 @@ def base_run(rng, alg, shape=None, seeded=False, zero_slice=False, zero_init=Fal
     elif alg == "hosvd":
         rd["rank"] = None
         rd["opts"] = {"tol": rng.choice([0.1, 0.3, 0.5, 0.7]), "dimorder": dimorder, "sequential": rng.random() < 0.7, "ranks": None}
-        if rng.random() < 0.3:
+        if graded is not None:
+            rd["opts"]["tol"] = rng.choice([1e-3, 1e-4, 1e-5, 1e-6, 2.0 ** -9])       # tight: keeps the 2^-g, 2^-2g components
+        elif rng.random() < 0.3:
             rd["opts"]["ranks"] = [rng.randint(1, max(1, d - 1)) for d in shape]     # A-32: yields ranks+1 columns; irrelevant here
     elif alg == "tucker_als":
         rd["rank"] = tr
@@ -275,6 +328,16 @@ def _mk(pair, alg, base, trans, c=1, perm=None, extra=None):
     if extra:
         args.update(extra)
     return Case(f"{pair}.{alg}", args, _nontrivial(base, pair, perm))
+
+
+FAR_SCALES = [2.0 ** -24, 2.0 ** -17, 2.0 ** 24, 2.0 ** -20, 2.0 ** -30]
+
+
+def _scaled(b, c):
+    t = dict(b)
+    key = "vals" if b["sparse"] else "data"
+    t[key] = [v * c for v in b[key]]
+    return _mk("scale", b["alg"], b, t, c=c)
 
 
 def gen_cases(rng, tier):
@@ -341,11 +404,19 @@ def gen_cases(rng, tier):
             b = base_run(rng, alg)
             if alg != "hosvd" and j % 3 == 2:
                 b = to_sparse(rng, b, "random")
-            c = (2, 8, 0.25)[j % 3]
-            t = dict(b)
-            key = "vals" if b["sparse"] else "data"
-            t[key] = [v * c for v in b[key]]
-            cases.append(_mk("scale", alg, b, t, c=c))
+            cases.append(_scaled(b, (2, 8, 0.25)[j % 3]))
+    # 4b. FAR scales: X vs 2^-17 X ... 2^-30 X and 2^+24 X (still exact in floats), half of them on dyadic data with a graded
+    #     multilinear spectrum (1, 2^-g, 2^-2g) and - hosvd - a tight tolerance with automatic ranks: an absolute threshold anywhere
+    #     (rank rule, "norm is zero" tests, stopping rules, eps floors) acts on one side of the pair only. Compared: chosen ranks
+    #     (core shape), the model divided by c at 1e-8 of ITS largest entry (the reference side is the one of larger magnitude),
+    #     fit, iteration count
+    for alg, n in (("hosvd", 6 if not big else 8), ("tucker_als", 4), ("cp_als", 4)):
+        for j in range(n * k):
+            g = None if (alg != "hosvd" and j % 2 == 1) or (alg == "hosvd" and j % 4 == 3) else rng.choice([4, 5, 6, 7])
+            b = base_run(rng, alg, graded=g)
+            if alg != "hosvd" and j % 4 == 2:
+                b = to_sparse(rng, b, "random")
+            cases.append(_scaled(b, FAR_SCALES[j % len(FAR_SCALES)]))
     # 5. relabel: X vs X.permute(p), guess / ranks / dimorder permuted consistently
     for alg, n in (("cp_als", 9), ("hosvd", 7), ("tucker_als", 7)):
         for j in range(n * k):
@@ -354,6 +425,98 @@ def gen_cases(rng, tier):
             ps = [p for p in U.perms(N) if p != list(range(N))]
             p = ps[j % len(ps)] if j % 7 != 6 else list(range(N))
             cases.append(_mk("relabel", alg, b, relabel(b, p), perm=p))
+    # 6. option corners for every pair kind: maxiters 1 (and 0), printing switched on identically on BOTH sides with odd intervals
+    #    (3, 7, 100), string starts ("nvecs" for cp_als / tucker_als), hosvd verbosity on the thresholds (2, 5) and beyond (10)
+    def corner(b, j):
+        if "maxiters" in b["opts"]:
+            b["opts"]["maxiters"] = (1, 1, 2, 0, 5, 1)[j % 6]
+        b["printitn"] = (3, 1, 7, 100, 0, 2)[j % 6]
+        return b
+    for alg, n in (("cp_als", 2), ("cp_apr_mu", 1), ("cp_apr_pdnr", 1), ("tucker_als", 2)):
+        for j in range(n * k):
+            b = corner(base_run(rng, alg), j)
+            cases.append(_mk("repr", alg, b, to_sparse(rng, b, ("random", "reversed")[j % 2]), extra={"order": "corner", "zero_slice": False}))
+    for alg, n in (("cp_als", 2), ("hosvd", 2), ("tucker_als", 2)):
+        for j in range(n * k):
+            b = corner(base_run(rng, alg), j + 1)
+            N = len(b["shape"])
+            ps = [p for p in U.perms(N) if p != list(range(N))]
+            p = ps[rng.randrange(len(ps))]
+            cases.append(_mk("relabel", alg, b, relabel(b, p), perm=p))
+            b = corner(base_run(rng, alg), j)
+            if b["opts"].get("maxiters") == 0:
+                b["opts"]["maxiters"] = 1                        # no sweep = the guess itself is returned: nothing to scale
+            cases.append(_scaled(b, (2.0 ** -20, 4)[j % 2]))
+    for alg, n in (("cp_als", 3), ("cp_apr_mu", 1), ("cp_apr_pdnr", 1), ("cp_apr_pqnr", 1), ("hosvd", 2), ("tucker_als", 3), ("gcp", 2)):
+        for j in range(n * k):                                   # print pairs with odd intervals on short and long runs
+            b = base_run(rng, alg, seeded=(alg in ("cp_als", "tucker_als") and j % 3 == 2))
+            if b.get("seed") is not None:
+                b["init_str"] = "nvecs"                          # string start computed inside (deterministic; the seed is unused)
+            if "maxiters" in b["opts"]:
+                b["opts"]["maxiters"] = (1, 3, 5, 0)[j % 4] if alg != "cp_apr_pqnr" else (1, 2)[j % 2]
+            pp = ((0, 2), (2, 5), (0, 10)) if alg == "hosvd" else ((0, 3), (3, 7), (1, 100))
+            for p1, p2 in (pp if big else (pp[j % 3], pp[(j + 1) % 3])):
+                b1 = dict(b)
+                b1["printitn"] = p1
+                t = dict(b)
+                t["printitn"] = p2
+                cases.append(_mk("print", alg, b1, t))
+    # 6b. degenerate operands for the print pairs: rank 1 and a singleton mode updated LAST in the sweep (the saved mttkrp / the
+    #     right-hand side of the solve is then a 1 x I or R x 1 array, contiguous in both orders), at least two sweeps, silent vs printing
+    for j in range(4 * k):
+        if j % 2 == 0:
+            b = base_run(rng, "cp_als", rank=1)
+        else:
+            shape = list(rng.choice([(3, 1, 4), (4, 3, 1), (1, 4, 3), (3, 1)]))
+            b = base_run(rng, "cp_als", shape=shape)
+            one = shape.index(1)
+            b["opts"]["dimorder"] = [m for m in range(len(shape)) if m != one] + [one]
+            b["opts"]["optdims"] = None
+        b["opts"]["maxiters"] = (3, 5, 2, 4)[j % 4]
+        b["opts"]["stoptol"] = 0.0
+        if j % 4 == 3:
+            b = to_sparse(rng, b, "random")
+        for p1, p2 in ((0, 1), (0, 3)):
+            b1 = dict(b)
+            b1["printitn"] = p1
+            t = dict(b)
+            t["printitn"] = p2
+            cases.append(_mk("print", "cp_als", b1, t))
+    # 7. the same start as a STRING and as an OBJECT: run 1 draws ("random", seeded) or computes ("nvecs") its start and returns it;
+    #    run 2 is handed exactly that object (cp_*: ktensor; gcp: ktensor or plain list; tucker_als: list of matrices, the unused
+    #    first-mode slot filled with arbitrary numbers) - op seed.<alg>, flag reinit
+    for alg, n in (("cp_als", 3), ("cp_apr_mu", 1), ("cp_apr_pdnr", 1), ("tucker_als", 3), ("gcp", 2)):
+        for j in range(n * k):
+            b = base_run(rng, alg, seeded=True)
+            if alg in ("cp_als", "tucker_als") and j % 3 == 1:
+                b["init_str"] = "nvecs"           # dense data only: sptensor.nvecs is broken (open findings A-38, C09-NVECS-SPARSE)
+            elif alg not in ("gcp",) and j % 2 == 1:
+                b = to_sparse(rng, b, "sorted")
+            b["printitn"] = (0, 1, 3)[j % 3]
+            t = dict(b)
+            if alg == "gcp" and j % 2 == 1:
+                t["init_as"] = "list"
+            cases.append(_mk("seed", alg, b, t, extra={"reinit": True}))
+    # 7b. history of the optimizer OBJECT (op seed.gcp / print.gcp, flag reuse_opt): run 2 uses an LBFGSB object built with the same
+    #     constructor options that has already solved another problem of a different size
+    for j in range(3 * k):
+        b = base_run(rng, "gcp", seeded=(j % 3 != 2))
+        b["opts"]["maxiters"] = (20, 50, 10)[j % 3]
+        t = dict(b)
+        t["reuse_opt"] = True
+        cases.append(_mk("seed" if b.get("seed") is not None else "print", "gcp", b, t, extra={"reuse_opt": True}))
+    # 8. memory layout (op repr.<alg>, flag layout): the same dense / sparse data and the same start handed over as C-ordered,
+    #    F-ordered or non-contiguous strided arrays (as built: data F-ordered, start matrices C-ordered)
+    for alg, n in (("cp_als", 3), ("cp_apr_mu", 1), ("cp_apr_pdnr", 1), ("cp_apr_pqnr", 1), ("hosvd", 2), ("tucker_als", 3), ("gcp", 1)):
+        for j in range(n * k):
+            b = base_run(rng, alg)
+            if alg not in ("hosvd", "gcp") and j % 3 == 2:
+                b = to_sparse(rng, b, "random")
+            t = dict(b)
+            t["layout"] = ("C", "view", "F")[j % 3]
+            if alg == "gcp" and j % 2 == 1:
+                t["init_as"] = "list"
+            cases.append(_mk("repr", alg, b, t, extra={"order": "layout", "zero_slice": False, "layout": t["layout"]}))
     return cases
 
 
@@ -365,7 +528,15 @@ def run_impl(c):
     out = {}
     for side in ("base", "trans"):
         try:
-            out[side] = U.run(ttb, np, a[side])
+            rd = a[side]
+            if side == "trans" and a.get("reinit"):
+                # the start the base run drew / computed itself (init = a string) is handed back as an explicit object
+                import random
+                rd = dict(rd)
+                rd["init"] = U.exact_init(out["base"]["init"], random.Random(len(str(a["base"]))), rd["shape"],
+                                          rd["rank"] if isinstance(rd["rank"], list) else None)
+                rd["seed"] = None
+            out[side] = U.run(ttb, np, rd)
         except Exception as ex:
             out[side] = {"exc": type(ex).__name__, "msg": str(ex)[:200]}
     return out
@@ -377,7 +548,21 @@ def _parts(c, o):
     b, t = o["base"], o["trans"]
     pair = a["pair"]
     parts = []
-    if pair == "seed" and a["alg"] == "tucker_als":
+    if b["model"]["kind"] == "t":
+        # chosen multilinear ranks (hosvd: by the automatic rule): the core shape, relabelled like the modes
+        parts.append(("ranks", "inteq", [b["model"]["core_shape"][k] for k in a["perm"]], list(t["model"]["core_shape"])))
+    if pair == "seed" and a.get("reinit"):
+        # same start given as a string (drawn / computed inside) and as the explicit object the first run returned: the object path
+        # may normalise / copy differently, so the model is compared by denotation; the returned start must be the given one
+        bi, ti = b["init"], t["init"]
+        if bi["kind"] == "l":
+            keep = [k for k, f in enumerate(bi["factors"]) if f is not None]
+            bi = {"kind": "l", "factors": [bi["factors"][k] for k in keep]}
+            ti = {"kind": "l", "factors": [ti["factors"][k] for k in keep]}
+        parts.append(("init", "raw" if bi["kind"] == "l" else "den", bi, ti))
+        parts.append(("model", "den", b["model"], t["model"]))
+        parts.append(("fit", "fitq" if a["alg"] in ("cp_als", "tucker_als") else "close", b["fit"], t["fit"]))
+    elif pair == "seed" and a["alg"] == "tucker_als":
         # tucker_als calls scipy eigsh (ARPACK) without v0: ARPACK's own start-vector generator keeps state between calls and is
         # not driven by numpy's seed, so two equally seeded runs agree only up to rounding (measured 1e-15). The start drawn
         # from numpy's stream must still be identical.
@@ -415,6 +600,15 @@ def _same_failure(o):
     return "exc" in o["base"] and "exc" in o["trans"] and o["base"]["exc"] == o["trans"]["exc"]
 
 
+def _orient(a, x, y):
+    """the comparer measures |y - c x| against 1e-8 * max(1, max|c x|): for a scale factor below 1 the roles are swapped
+    (reference = the run on the data of larger magnitude, factor 1/c), so that the floor 1 never hides a tiny model"""
+    c = Fraction(a["c"])
+    if a["pair"] == "scale" and 0 < c < 1:
+        return 1 / c, y, x
+    return c, x, y
+
+
 def coq_check(c, o):
     a = c.args
     if _same_failure(o):
@@ -430,7 +624,8 @@ def coq_check(c, o):
             if not (U.finite(U.model_values(x)) and U.finite(U.model_values(y))):
                 return "false"
             f = "kk_close" if x["kind"] == "k" else "tt_close"
-            exprs.append(f"{f} tol8 {gnlist(a['base']['shape'])} {gq(Fraction(a['c']))} {gnlist(a['perm'])} {U.gmodel(x)} {U.gmodel(y)}")
+            cc, x, y = _orient(a, x, y)
+            exprs.append(f"{f} tol8 {gnlist(a['base']['shape'])} {gq(cc)} {gnlist(a['perm'])} {U.gmodel(x)} {U.gmodel(y)}")
         elif kind == "raw":
             if x["kind"] == "l":
                 same = [(p is None) == (q is None) for p, q in zip(x["factors"], y["factors"])]
@@ -476,7 +671,8 @@ def oracle(c, o):
             return f"{name} differ: {x} vs {y}"
         if kind == "den":
             try:
-                why = U.rel_mismatch(a["base"]["shape"], a["c"], a["perm"], x, y, TOL)
+                cc, x, y = _orient(a, x, y)
+                why = U.rel_mismatch(a["base"]["shape"], cc, a["perm"], x, y, TOL)
             except ValueError as ex:
                 return f"model holds a non-finite value ({ex})"
             if why:
